@@ -28,21 +28,29 @@ def vkey(v):
     return (v['clause'], v['site'])
 
 
-def minimise(machine, case, target, wall_s=90.0, max_exec=400):
+def minimise(machine, case, target, wall_s=90.0, max_exec=400, evaluate=None, prefix=None):
     """
     target: (clause, site). Returns (min_case, n_exec, violation_dict).
+    evaluate(prefix, case) -> list of violation dicts (or None on failure), executed in a FRESH process so that
+    no state is carried from one candidate to the next; default: in this process.
     """
     t0 = time.time()
     n_exec = 0
+    prefix = prefix or []
 
     def fails(c):
         nonlocal n_exec
         n_exec += 1
-        try:
-            out = machine.execute(copy.deepcopy(c))
-        except Exception:
-            return None
-        for v in out['violations']:
+        if evaluate is not None:
+            vs = evaluate(prefix, copy.deepcopy(c))
+            if vs is None:
+                return None
+        else:
+            try:
+                vs = machine.execute(copy.deepcopy(c))['violations']
+            except Exception:
+                return None
+        for v in vs:
             if vkey(v) == target:
                 return v
         return None
@@ -63,3 +71,38 @@ def minimise(machine, case, target, wall_s=90.0, max_exec=400):
                 progress = True
                 break
     return best, n_exec, best_v
+
+
+def minimise_with_prefix(machine, prefix, case, target, wall_s=90.0, evaluate=None):
+    """The violation did not reproduce alone: find a minimal list of preceding runs that makes it reproduce,
+    then minimise the case itself with that history. Returns (prefix, case, n_exec, violation)."""
+    t0 = time.time()
+    n_exec = 0
+
+    def fails(pre):
+        nonlocal n_exec
+        n_exec += 1
+        vs = evaluate(pre, copy.deepcopy(case))
+        for v in vs or []:
+            if vkey(v) == target:
+                return v
+        return None
+
+    v = fails(prefix)
+    if v is None:
+        return prefix, case, n_exec, None
+    best = list(prefix)
+    progress = True
+    while progress and time.time() - t0 < wall_s and len(best) > 1:
+        progress = False
+        for cand in list_reductions(best, 1):
+            if time.time() - t0 > wall_s:
+                break
+            v2 = fails(cand)
+            if v2 is not None:
+                best, v = cand, v2
+                progress = True
+                break
+    mcase, n2, mv = minimise(machine, case, target, wall_s=max(10.0, wall_s - (time.time() - t0)),
+                             evaluate=evaluate, prefix=best)
+    return best, (mcase if mv is not None else case), n_exec + n2, (mv or v)
